@@ -365,11 +365,19 @@ def seq_correspondence(run, harness, mode, label, args, corpus_files=(), overlay
             small, im, mo, sp = small[:idx + 1], im[:idx + 1], mo[:idx + 1], sp[:idx + 1]
             last = small[-1].split()[0]
             found = kind == "spec"
+            what_model = "hand-written model and real code disagree (correspondence broken) and no call sequence was found on which the real code contradicts the reference semantics"
+            if kind == "model" and im and mo and im[-1].split(" | cbs=")[0] == mo[-1].split(" | cbs=")[0]:
+                # same result, different callback ledger.  Spec.TTL has no callbacks; the reference for the ledger is
+                # the model's, which the C06 theorems prove to be exactly the entries the call removed, once each,
+                # with the callback in force: a ledger that differs from it on an equal state is a failing input
+                found = True
+                what_model = ("the real code's evicted-callback ledger for this call differs from the ledger the C06 theorems "
+                              "prove correct (exactly the entries the call physically removed, once each, callback in force)")
             # a corpus sequence is identified by its file, a generated one by the run it came from
             sig = "%s:%s:%s" % (jname if jname.startswith("corpus:") else label, kind, last)
             payload = {"kind": "sequential-differential", "what": {
                 "spec": "the real code contradicts the property's reference semantics (Spec) on this call sequence",
-                "model": "hand-written model and real code disagree (correspondence broken) and no call sequence was found on which the real code contradicts the reference semantics"}[kind],
+                "model": what_model}[kind],
                 "mode": mode, "overlay": overlay, "args": extra, "ops": small, "impl": im, "model": mo, "spec": sp,
                 "replay_cmd": "./check %s --replay <this file>" % run.pid}
             path = write_replay(run, "%s_%s_%s" % (label, kind, last), payload)
